@@ -202,6 +202,40 @@ example : responseMatcher ["200".toList, "2XX".toList, "default".toList] 201
 example : responseMatcher ["200".toList, "4XX".toList, "default".toList] 500
     ["200".toList, "default".toList] = some (some "default".toList) := by decide
 
+/-- **At the call site.**  For every operation — whatever response keys it documents and whichever of them carry links —
+    the state machine stores a response under link key `k` only if `k` is the key the *documented* keys select for that
+    status: in particular a link under `default` is not followed from a response that a link-less documented key covers. -/
+theorem operation_link_followed_per_documentation (responses : List (Str × Bool)) (status : Nat) (k : Str)
+    (hall : ∀ r ∈ responses, r.1 = sDefault ∨ validKey r.1 = true)
+    (h : operationMatcher responses status = some (some k)) :
+    specFollows k (responses.map (·.1)) status = true ∧ (k, true) ∈ responses := by
+  unfold operationMatcher at h
+  have hk : ∀ k' ∈ (responses.filter (·.2)).map (·.1), k' = sDefault ∨ validKey k' = true := by
+    intro k' hk'
+    simp only [List.mem_map, List.mem_filter] at hk'
+    obtain ⟨r, ⟨hr, _⟩, rfl⟩ := hk'
+    exact hall r hr
+  have hkeys : ∀ k' ∈ responses.map (·.1), k' = sDefault ∨ validKey k' = true := by
+    intro k' hk'
+    simp only [List.mem_map] at hk'
+    obtain ⟨r, hr, rfl⟩ := hk'
+    exact hall r hr
+  refine ⟨link_followed_only_from_matching_status _ _ status k hkeys hk h, ?_⟩
+  obtain ⟨pre, post, hlinks, _, _⟩ := matcher_sound _ _ status k h
+  have : k ∈ (responses.filter (·.2)).map (·.1) := by rw [hlinks]; simp
+  simp only [List.mem_map, List.mem_filter] at this
+  obtain ⟨r, ⟨hr, hb⟩, rfl⟩ := this
+  obtain ⟨a, b⟩ := r
+  simp only at hb ⊢
+  subst hb
+  exact hr
+
+/-- the link-less keys matter: with only the link keys in view a `507` answer of an operation documenting
+    `default` (link), `5XX` (no link), `500` (link) would be stored under `default` -/
+example : operationMatcher [("default".toList, true), ("5XX".toList, false), ("500".toList, true)] 507 = some none ∧
+    responseMatcher ["default".toList, "500".toList] 507 ["default".toList, "500".toList] = some (some "default".toList) := by
+  decide
+
 /-! ## parser -/
 
 /-- The parser reads only the tokens' texts and types: `expr[current_end + 1:]`, which `take_extractor` inspects, is
